@@ -8,7 +8,7 @@ from formulaic.parser.algos.tokenize import tokenize
 
 from harness import parser_common as pc
 
-for _k, _v in (("__SHARD__", 0), ("__N__", 1), ("__SEED__", 0), ("__M__", 10)):
+for _k, _v in (("__SHARD__", 0), ("__N__", 1), ("__SEED__", 0), ("__M__", 10), ("__F1__", 0), ("__WN__", 4), ("__M2__", 7)):
     globals().setdefault(_k, _v)
 
 
@@ -196,12 +196,12 @@ def _outcome(parser, s):
 
 def flag_switch(f1: int, f2: int, w: int, k0: int, k1: int, k2: int) -> bool:
     """
-    pre: 0 <= f1 < 8 and 0 <= f2 < 8 and 0 <= w < 4 and 0 <= k0 < 7 and 0 <= k1 < 7 and 0 <= k2 < 7 and f2 == __SHARD__
+    pre: 0 <= f1 < 8 and 0 <= f2 < 8 and 0 <= w < __WN__ and 0 <= k0 < __M2__ and 0 <= k1 < __M2__ and 0 <= k2 < __M2__ and f2 == __SHARD__ and f1 == __F1__
     post: _
     """
     # one parser object with a history: configured for F1, used, reconfigured to F2 - it then parses like a parser born with F2
-    f1, f2, w = _pick(f1, 0, 7), _pick(f2, 0, 7), _pick(w, 0, 3)
-    s = " ".join(FLAG_ALPHA[_pick(k, 0, 6)] for k in (k0, k1, k2))
+    f1, f2, w = _pick(f1, 0, 7), _pick(f2, 0, 7), _pick(w, 0, __WN__ - 1)
+    s = " ".join(FLAG_ALPHA[_pick(k, 0, __M2__ - 1)] for k in (k0, k1, k2))
     used = DefaultFormulaParser(feature_flags=set(f.lower() for f in FLAGSETS[f1]))
     _outcome(used, WARMUP[w])
     used.set_feature_flags(set(f.lower() for f in FLAGSETS[f2]))
